@@ -207,13 +207,15 @@ func c15Gen(seed int64, idx int) c15Case {
 				fmt.Fprintf(&sb, "if v := %s; v >= 0 {\n\tmark(%q)\n}\n", acc, m)
 			}
 			if rng.Bool() {
+				// the init function of this file uses a function and a variable declared in the file that sorts last:
+				// all declarations and initialisers of a package are in place before its init functions run
 				m := fmt.Sprintf("%s/%s/init", p.Name, file.Name)
 				if !file.Included {
 					m = "EXCLUDED " + m
 				} else {
-					file.Markers = append(file.Markers, m)
+					file.Markers = append(file.Markers, m+"+")
 				}
-				fmt.Fprintf(&sb, "\nfunc init() {\n\tmark(%q)\n}\n", m)
+				fmt.Fprintf(&sb, "\nfunc init() {\n\tmark(%q + depF%d())\n}\n", m, i)
 			}
 			if i == entry && f == 0 {
 				sb.WriteString("\nfunc main() {\n}\n")
@@ -221,6 +223,7 @@ func c15Gen(seed int64, idx int) c15Case {
 			c.Files[p.Dir+"/"+file.Name] = sb.String()
 			p.Files = append(p.Files, file)
 		}
+		c.Files[p.Dir+"/zz_dep.go"] = fmt.Sprintf("package %s\n\nvar depV%d = \"+\"\n\nfunc depF%d() string {\n\treturn depV%d\n}\n", p.Name, i, i, i)
 		if rng.Chance(1, 3) {
 			// one to three test files, some of them adjacent in the sorted directory listing
 			tnames := []string{"a_test.go", "x_test.go", p.Name + "_test.go", "xa_test.go", "y_test.go", "a_b_test.go"}
